@@ -175,7 +175,7 @@ def run_task(task, acc):
         for idx, (h, v) in enumerate(allv):
             if idx % 8 != task['k']:
                 continue
-            acc.state(model.canon_hash(v))
+            acc.current = {'a': h, 'b': None, 'form': 'split', 'k': 0}
             acc.evaluations += 1
             for clause, case, detail in check_split(h, v, acc):
                 acc.violation(clause, case, detail, sig=clause)
@@ -226,7 +226,7 @@ def check_self(ha, acc):
     a = build(ha)
     ta, ca = model.alpha_codes(a)
     wt, wc = ta + ta, list(ca) + list(ca)
-    for form in ('self_add', 'self_iadd', 'self_join'):
+    for form in ('self_add', 'self_iadd', 'self_join', 'self_str_add', 'self_str_join'):
         case = {'a': ha, 'b': None, 'form': form}
         acc.transitions += 1
         try:
@@ -236,20 +236,46 @@ def check_self(ha, acc):
             elif form == 'self_iadd':
                 r = a
                 r += a
+            elif form == 'self_str_add':
+                x = AnsiStr(a)
+                r = x + x
+            elif form == 'self_str_join':
+                x = AnsiStr(a)
+                r = AnsiStr.join(x, x)
             else:
                 r = AnsiString.join(a, a)
         except Exception as e:  # noqa
             bad.append(('cat-raises', case, '%s raised %s: %s' % (form, type(e).__name__, e)))
             continue
         if check_result(r, wt, wc, form, case, bad):
-            acc.validated += 1
+            # the result must also behave: removing over any range of it works (a doubled marker shows here)
+            rc = model.content(r)
+            err = None
+            if len(rc) <= 8:
+                for (s_, e_) in explore.ranges(len(rc)):
+                    w = rc.copy()
+                    try:
+                        w.remove_formatting(None, s_, e_)
+                        err = model.self_check(w)
+                    except Exception as ex:  # noqa
+                        err = 'remove_formatting(None, %d, %d) raised %s: %s' % (s_, e_, type(ex).__name__, ex)
+                    if err:
+                        break
+            if err:
+                bad.append(('cat-inconsistent', case, '%s: result misbehaves later: %s' % (form, err)))
+            else:
+                acc.validated += 1
     return bad
 
 
 def check_split(h, v, acc):
     bad = []
-    t, c = model.alpha_codes(v)
-    disp = [rt.interpret(s) for s in (v.to_str(), v.to_str(optimize=False))]
+    try:
+        v = build(h)
+        t, c = model.alpha_codes(v)
+        disp = [rt.interpret(s) for s in (v.to_str(), v.to_str(optimize=False))]
+    except Exception as e:  # noqa
+        return [('split-raises', {'a': h, 'b': None, 'form': 'split', 'k': 0}, 'reading the value raised %s: %s' % (type(e).__name__, e))]
     for k in range(0, len(t) + 1):
         case = {'a': h, 'b': None, 'form': 'split', 'k': k}
         acc.transitions += 1
